@@ -6,6 +6,10 @@ Parts
   run_roundtrip      load(save(doc)) == doc (NO whitespace trimming) x {JSON, YAML} x entry points x dict level
   run_layout         written structure = 1.1 dictionary layout; an independently built dict loads to its document
   run_cross_format   JSON == YAML exactly, == XML up to trimming of text
+  run_native_values  values given as unusual native Python objects (time zone aware datetimes / times, subclass
+                     instances, microseconds, Decimal / Fraction, huge ints, -0.0, inf, nan, native tuples) through every
+                     value entry point: round trip x {JSON, YAML} x string and file entry points + dict level, and
+                     JSON == YAML == XML; the writer may raise only for content the format has no form for
 
 Shares the document generator, the independent comparison and the feature labels with b_C01.
 The written text is inspected with json / yaml.safe_load directly, never through the library's reader.
@@ -1305,3 +1309,640 @@ def _cross_format(tier, seed, work, col, agg):
                                '; contract: both formats load to the same document' +
                                (' up to trimming of text' if strip else ''))
     return skipped
+
+
+# ---------------------------------------------------------------------------------------------
+# native Python objects as values
+# ---------------------------------------------------------------------------------------------
+# The generators above fill Properties with the plain objects a hand-written script uses (str, int, float, bool,
+# naive date / time / datetime). A value can also be given as any other Python object the dtype accepts: a time zone
+# aware datetime (what datetime.now(timezone.utc) returns), an instance of a subclass, a datetime with microseconds,
+# a Decimal, a very large int, -0.0, inf, nan ... Whatever the document holds after such an object was accepted is
+# what has to survive save + load, and JSON, YAML and XML have to agree on it. Objects the library refuses did not
+# happen; a document whose content the format cannot hold may make the writer raise, but must never be written
+# in a form that does not load to the same document.
+
+import decimal
+import fractions
+import math
+
+
+class SubDatetime(dt.datetime):
+    pass
+
+
+class SubDate(dt.date):
+    pass
+
+
+class SubTime(dt.time):
+    pass
+
+
+class SubInt(int):
+    pass
+
+
+class SubFloat(float):
+    pass
+
+
+class SubStr(str):
+    pass
+
+
+class RuleZone(dt.tzinfo):
+    """A named zone with a daylight saving rule (own class: no time zone database needed)."""
+
+    def dst(self, when):
+        summer = when is not None and 4 <= when.month <= 9
+        return dt.timedelta(hours=1 if summer else 0)
+
+    def utcoffset(self, when):
+        return dt.timedelta(hours=1) + self.dst(when)
+
+    def tzname(self, when):
+        return 'CEST' if self.dst(when) else 'CET'
+
+
+UTC = dt.timezone.utc
+PLUS2 = dt.timezone(dt.timedelta(hours=2))
+MINUS0530 = dt.timezone(dt.timedelta(hours=-5, minutes=-30), 'odd')
+ZONE = RuleZone()
+
+NATIVE_POOL = {
+    'datetime': [
+        ('tz-aware-utc', dt.datetime(2020, 3, 4, 12, 30, 15, tzinfo=UTC)),
+        ('tz-aware-fixed-offset', dt.datetime(2020, 3, 4, 12, 30, 15, tzinfo=PLUS2)),
+        ('tz-aware-negative-offset', dt.datetime(2020, 3, 4, 23, 30, 15, tzinfo=MINUS0530)),
+        ('tz-aware-named-zone', dt.datetime(2020, 7, 4, 12, 30, 15, tzinfo=ZONE)),
+        ('tz-aware+microseconds', dt.datetime(2020, 3, 4, 12, 30, 15, 250000, tzinfo=PLUS2)),
+        ('subclass', SubDatetime(2020, 3, 4, 12, 30, 15)),
+        ('subclass-tz-aware', SubDatetime(2020, 3, 4, 12, 30, 15, tzinfo=UTC)),
+        ('microseconds', dt.datetime(2020, 3, 4, 12, 30, 15, 123456)),
+        ('fold', dt.datetime(2020, 10, 25, 2, 30, 0, fold=1)),
+        ('year-below-1000', dt.datetime(999, 1, 2, 3, 4, 5)),
+        ('year-1', dt.datetime(1, 1, 1, 0, 0, 0)),
+        ('year-9999', dt.datetime(9999, 12, 31, 23, 59, 59)),
+        ('date-object', dt.date(2020, 3, 4)),
+        ('time-object', dt.time(12, 30, 15)),
+    ],
+    'date': [
+        ('subclass', SubDate(2020, 3, 4)),
+        ('datetime-object', dt.datetime(2020, 3, 4, 12, 30, 15)),
+        ('datetime-object-midnight', dt.datetime(2020, 3, 4)),
+        ('datetime-object-tz-aware', dt.datetime(2020, 3, 4, 12, 30, 15, tzinfo=PLUS2)),
+        ('datetime-subclass-object', SubDatetime(2020, 3, 4, 0, 0, 0)),
+        ('year-below-1000', dt.date(999, 1, 2)),
+        ('year-1', dt.date(1, 1, 1)),
+        ('year-9999', dt.date(9999, 12, 31)),
+    ],
+    'time': [
+        ('tz-aware-utc', dt.time(12, 30, 15, tzinfo=UTC)),
+        ('tz-aware-fixed-offset', dt.time(12, 30, 15, tzinfo=PLUS2)),
+        ('tz-aware-named-zone', dt.time(12, 30, 15, tzinfo=ZONE)),
+        ('tz-aware+microseconds', dt.time(12, 30, 15, 999999, tzinfo=PLUS2)),
+        ('subclass', SubTime(12, 30, 15)),
+        ('microseconds', dt.time(12, 30, 15, 500)),
+        ('fold', dt.time(2, 30, 0, fold=1)),
+        ('datetime-object', dt.datetime(2020, 3, 4, 12, 30, 15)),
+    ],
+    'int': [
+        ('subclass', SubInt(5)), ('bool-true', True), ('bool-false', False),
+        ('beyond-64-bit', 10 ** 30), ('beyond-64-bit-negative', -10 ** 30), ('2**63', 2 ** 63), ('2**64', 2 ** 64),
+        ('-2**63', -2 ** 63), ('decimal', decimal.Decimal('5')), ('decimal-fraction', decimal.Decimal('5.5')),
+        ('fraction', fractions.Fraction(10, 2)), ('float-integral', 5.0), ('float-fractional', 5.7),
+        ('float-negative-zero', -0.0), ('float-inf', float('inf')), ('float-nan', float('nan')),
+        ('float-beyond-64-bit', 1e30),
+    ],
+    'float': [
+        ('subclass', SubFloat(1.5)), ('subclass-nan', SubFloat('nan')), ('bool-true', True), ('int', 3),
+        ('int-subclass', SubInt(3)), ('int-beyond-64-bit', 10 ** 30), ('int-beyond-float-precision', 2 ** 53 + 1),
+        ('int-beyond-float-range', 10 ** 400), ('negative-zero', -0.0), ('inf', float('inf')),
+        ('negative-inf', float('-inf')), ('nan', float('nan')), ('largest', 1.7976931348623157e308),
+        ('smallest-subnormal', 5e-324), ('17-digits', 0.1 + 0.2), ('decimal', decimal.Decimal('1.1')),
+        ('decimal-nan', decimal.Decimal('NaN')), ('decimal-long', decimal.Decimal('0.1234567890123456789012345')),
+        ('fraction', fractions.Fraction(1, 3)),
+    ],
+    'boolean': [
+        ('int-1', 1), ('int-0', 0), ('int-subclass', SubInt(1)), ('float-1.0', 1.0), ('float-0.0', 0.0),
+        ('float-negative-zero', -0.0), ('decimal-1', decimal.Decimal(1)), ('fraction-0', fractions.Fraction(0)),
+        ('str-subclass', SubStr('true')), ('int-2', 2),
+    ],
+    'string': [
+        ('subclass', SubStr('abc')), ('subclass-padded', SubStr(' pad ')), ('subclass-retypable', SubStr('null')),
+        ('int', 5), ('float', 1.5), ('bool', True), ('bool-false', False), ('int-0', 0), ('date', dt.date(2020, 1, 2)),
+        ('datetime-tz-aware', dt.datetime(2020, 3, 4, 12, 30, 15, tzinfo=PLUS2)), ('decimal', decimal.Decimal('1.10')),
+        ('fraction', fractions.Fraction(1, 3)), ('bytes', b'bytes'), ('nan', float('nan')), ('tuple', (1, 2)),
+        ('int-beyond-64-bit', 10 ** 30),
+    ],
+    'text': [('subclass', SubStr('line1\nline2')), ('int', 5)],
+    'url': [('subclass', SubStr('http://example.org/a?b=1'))],
+    'person': [('subclass', SubStr('Doe, Jane'))],
+    '2-tuple': [('str-subclass', SubStr('(1;2)')), ('python-tuple-of-int', (1, 2)), ('python-tuple-of-str', ('1', '2')),
+                ('python-list-of-str', ['1', '2']), ('python-list-of-str-subclass', [SubStr('1'), SubStr('2')]),
+                ('python-tuple-of-float', (1.5, -0.0))],
+    '3-tuple': [('str-subclass', SubStr('(a;b;c)')), ('python-tuple-of-mixed', (1, 'b', 2.5))],
+    # dtype not given: inferred from the object
+    None: [
+        ('int-subclass', SubInt(5)), ('float-subclass', SubFloat(1.5)), ('str-subclass', SubStr('x')),
+        ('str-subclass-multiline', SubStr('a\nb')), ('datetime-subclass', SubDatetime(2020, 3, 4, 12, 30, 15)),
+        ('date-subclass', SubDate(2020, 3, 4)), ('time-subclass', SubTime(1, 2, 3)),
+        ('datetime-tz-aware-utc', dt.datetime(2020, 3, 4, 12, 30, 15, tzinfo=UTC)),
+        ('datetime-tz-aware-fixed-offset', dt.datetime(2020, 3, 4, 12, 30, 15, tzinfo=PLUS2)),
+        ('datetime-tz-aware-named-zone', dt.datetime(2020, 7, 4, 12, 30, 15, tzinfo=ZONE)),
+        ('datetime-microseconds', dt.datetime(2020, 3, 4, 12, 30, 15, 123456)),
+        ('time-tz-aware', dt.time(12, 30, 15, tzinfo=PLUS2)), ('time-microseconds', dt.time(12, 30, 15, 500)),
+        ('decimal', decimal.Decimal('1.5')), ('fraction', fractions.Fraction(1, 2)), ('int-beyond-64-bit', 10 ** 30),
+        ('float-nan', float('nan')), ('float-inf', float('inf')), ('float-negative-zero', -0.0), ('bool', True),
+        ('bytes', b'x'), ('complex', 1 + 2j),
+    ],
+}
+
+NATIVE_BASE = {'datetime': dt.datetime(2001, 2, 3, 4, 5, 6), 'date': dt.date(2001, 2, 3), 'time': dt.time(4, 5, 6),
+               'int': 7, 'float': 2.5, 'boolean': False, 'string': 'base', 'text': 'base\ntext',
+               'url': 'http://base.example', 'person': 'Base, B', '2-tuple': '(8;9)', '3-tuple': '(7;8;9)'}
+
+
+def _with_base(dtype, name):
+    return odml.Property(name=name, dtype=dtype, values=[NATIVE_BASE[dtype]])
+
+
+def _ep_ctor(sec, name, dtype, o):
+    return odml.Property(name=name, dtype=dtype, values=[o])
+
+
+def _ep_ctor_scalar(sec, name, dtype, o):
+    return odml.Property(name=name, dtype=dtype, values=o)
+
+
+def _ep_ctor_among_plain(sec, name, dtype, o):
+    return odml.Property(name=name, dtype=dtype, values=[NATIVE_BASE[dtype], o, NATIVE_BASE[dtype]])
+
+
+def _ep_ctor_twice(sec, name, dtype, o):
+    return odml.Property(name=name, dtype=dtype, values=[o, o])
+
+
+def _ep_values_setter(sec, name, dtype, o):
+    p = _with_base(dtype, name) if dtype else odml.Property(name=name)
+    p.values = [o]
+    return p
+
+
+def _ep_values_setter_scalar(sec, name, dtype, o):
+    p = _with_base(dtype, name) if dtype else odml.Property(name=name)
+    p.values = o
+    return p
+
+
+def _ep_value_alias(sec, name, dtype, o):
+    p = _with_base(dtype, name) if dtype else odml.Property(name=name)
+    p.value = o
+    return p
+
+
+def _ep_append(sec, name, dtype, o):
+    p = _with_base(dtype, name)
+    p.append(o)
+    return p
+
+
+def _ep_append_lenient(sec, name, dtype, o):
+    p = _with_base(dtype, name)
+    p.append(o, strict=False)
+    return p
+
+
+def _ep_append_to_empty(sec, name, dtype, o):
+    p = odml.Property(name=name, dtype=dtype)
+    p.append(o)
+    return p
+
+
+def _ep_extend(sec, name, dtype, o):
+    p = _with_base(dtype, name)
+    p.extend([o, o])
+    return p
+
+
+def _ep_extend_lenient(sec, name, dtype, o):
+    p = _with_base(dtype, name)
+    p.extend([o], strict=False)
+    return p
+
+
+def _ep_extend_empty(sec, name, dtype, o):
+    p = odml.Property(name=name, dtype=dtype)
+    p.extend([o])
+    return p
+
+
+def _ep_extend_by_property(sec, name, dtype, o):
+    p = _with_base(dtype, name)
+    p.extend(odml.Property(name='source', dtype=dtype, values=[o]))
+    return p
+
+
+def _ep_insert(sec, name, dtype, o):
+    p = _with_base(dtype, name)
+    p.insert(0, o)
+    return p
+
+
+def _ep_insert_lenient(sec, name, dtype, o):
+    p = _with_base(dtype, name)
+    p.insert(1, o, strict=False)
+    return p
+
+
+def _ep_insert_into_empty(sec, name, dtype, o):
+    p = odml.Property(name=name, dtype=dtype)
+    p.insert(0, o)
+    return p
+
+
+def _ep_setitem(sec, name, dtype, o):
+    p = _with_base(dtype, name)
+    p[0] = o
+    return p
+
+
+def _ep_merge(sec, name, dtype, o):
+    p = _with_base(dtype, name)
+    p.merge(odml.Property(name=name, dtype=dtype, values=[o]), strict=False)
+    return p
+
+
+def _ep_clone(sec, name, dtype, o):
+    return odml.Property(name=name, dtype=dtype, values=[o]).clone()
+
+
+def _ep_create_property(sec, name, dtype, o):
+    holder = odml.Section(name='holder', type='t')
+    p = holder.create_property(name, [o], dtype)
+    holder.remove(p)
+    return p
+
+
+# (label, function, needs a dtype given)
+VALUE_ENTRY_POINTS = [
+    ('ctor', _ep_ctor, False), ('ctor-scalar', _ep_ctor_scalar, False), ('ctor-among-plain', _ep_ctor_among_plain, True),
+    ('ctor-twice', _ep_ctor_twice, False), ('values=', _ep_values_setter, False),
+    ('values=scalar', _ep_values_setter_scalar, False), ('value=', _ep_value_alias, False), ('append', _ep_append, True),
+    ('append-lenient', _ep_append_lenient, True), ('append-to-empty', _ep_append_to_empty, False),
+    ('extend', _ep_extend, True), ('extend-lenient', _ep_extend_lenient, True), ('extend-empty', _ep_extend_empty, False),
+    ('extend-by-Property', _ep_extend_by_property, True), ('insert', _ep_insert, True),
+    ('insert-lenient', _ep_insert_lenient, True), ('insert-into-empty', _ep_insert_into_empty, False),
+    ('setitem', _ep_setitem, True), ('merge', _ep_merge, True), ('clone', _ep_clone, False),
+    ('create_property', _ep_create_property, False),
+]
+
+
+def native_property(sec, ep, name, dtype, o):
+    """The Property that results from giving `o` to the value entry point `ep`, attached to `sec`;
+    None when the library refuses the object there (then nothing happened)."""
+    fn = dict((lab, f) for lab, f, _ in VALUE_ENTRY_POINTS)[ep]
+    k, p = h.call(fn, sec, name, dtype, o)
+    if k == 'exc' or not isinstance(p, h.BaseProperty) or p._parent is not None:
+        return None
+    if h.call(sec.append, p)[0] == 'exc':
+        return None
+    return p
+
+
+def entry_points_for(dtype):
+    return [lab for lab, _f, needs in VALUE_ENTRY_POINTS if dtype is not None or not needs]
+
+
+def native_doc(dtype, objs, eps):
+    """Document with one Section holding one Property per entry point of `eps` that accepted the object(s);
+    objs: one object, or several (then they are given together, as one list, to the constructor).
+    -> (doc, accepted entry point labels)"""
+    accepted = []
+    with h.quiet():
+        doc = odml.Document(author='native', version='1')
+        sec = odml.Section(name='native', type='values', parent=doc)
+        if len(objs) > 1:
+            k, p = h.call(odml.Property, name='ctor-list', dtype=dtype, values=list(objs))
+            if k == 'ret' and h.call(sec.append, p)[0] == 'ret':
+                accepted.append('ctor-list')
+        else:
+            for ep in eps:
+                if native_property(sec, ep, ep, dtype, objs[0]) is not None:
+                    accepted.append(ep)
+    return doc, accepted
+
+
+def native_embedded_doc(shape, rnd, dtype, o):
+    """A generated document (shared generator) with Properties that got the native object through randomly chosen
+    entry points, at randomly chosen places between the generated Properties."""
+    accepted = []
+    doc = h.build_doc(shape, rnd, rich=False)
+    with h.quiet():
+        secs = h.walk(doc)[0]
+        eps = entry_points_for(dtype)
+        for i in range(rnd.choice([1, 2, 3])):
+            sec = rnd.choice(secs)
+            ep = rnd.choice(eps)
+            name = 'native%d:%s' % (i, ep)
+            p = native_property(sec, ep, name, dtype, o)
+            if p is not None:
+                accepted.append(ep)
+                h.call(p.reorder, rnd.randrange(len(list(list.__iter__(sec._props)))))
+    return doc, accepted
+
+
+def native_documents(tier, seed):
+    """(label, native feature label, structure, doc, accepted entry points, dtype, objects); deterministic for
+    (tier, seed) up to the ids. Inputs the library refuses at every entry point yield doc None."""
+    quick = tier == 'quick'
+    for dtype in NATIVE_POOL:
+        dname = dtype or 'inferred'
+        eps = entry_points_for(dtype)
+        pool = NATIVE_POOL[dtype]
+        for kind, o in pool:
+            feat = '%s:%s' % (dname, kind)
+            doc, acc = native_doc(dtype, [o], eps)
+            yield 'native[%s]all-entry-points' % feat, feat, 'all-entry-points', (doc if acc else None), acc, dtype, [o]
+        # two different native objects in one list: every ordered pair (thorough only; every entry point list
+        # above already has the object between plain values)
+        for i, (k1, o1) in enumerate(pool):
+            for j, (k2, o2) in enumerate(pool):
+                if i == j or quick:
+                    continue
+                feat = '%s:%s|%s' % (dname, k1, k2)
+                doc, acc = native_doc(dtype, [o1, o2], [])
+                if acc:
+                    yield 'native[%s]ctor-list' % feat, feat, 'ctor-list', doc, acc, dtype, [o1, o2]
+    # inside generated documents (quick: every third object, which ones depends on the seed)
+    rnd = random.Random('native-%s-%s' % (tier, seed))
+    shapes = [s for s in h.tree_shapes(2 if quick else 3) if s]
+    i = 0
+    for rep in range(1 if quick else 3):
+        for dtype in NATIVE_POOL:
+            for kind, o in NATIVE_POOL[dtype]:
+                i += 1
+                if quick and (i + (seed if isinstance(seed, int) else 0)) % 3:
+                    continue
+                feat = '%s:%s' % (dtype or 'inferred', kind)
+                doc, acc = native_embedded_doc(shapes[i % len(shapes)], rnd, dtype, o)
+                if acc:
+                    yield 'native[%s]embedded(%s,%s)[%d]:%s' % (feat, tier, seed, i, '+'.join(acc)), feat, \
+                        'embedded', doc, acc, dtype, [o]
+
+
+PLAIN_TEXT_FIELDS = {'document': ('_author', '_version', '_repository'),
+                     'section': ('_name', '_definition', '_reference', '_repository', '_link', '_include'),
+                     'property': ('_name', '_dtype', '_unit', '_definition', '_reference', '_dependency',
+                                  '_dependency_value', '_value_origin')}
+
+
+def holds_only_format_types(doc):
+    """Own definition of "the format can hold this document as it is": every value is exactly a bool, a str, an int
+    of at most 64 bits, a finite float, a date, a naive time / datetime without a fraction of a second, or a list of
+    str (odML n-tuple); text attributes are str, the uncertainty is a finite int / float, the date is a date and the
+    cardinalities are pairs of int / None. For such a document the writers have no reason to raise; for any other the
+    statement leaves them the choice between raising and writing something that loads to the same document."""
+    def plain_number(v):
+        return (type(v) is int and abs(v) < 2 ** 63) or (type(v) is float and math.isfinite(v))
+
+    def plain_value(v):
+        if type(v) in (bool, str, dt.date):
+            return True
+        if type(v) in (dt.time, dt.datetime):
+            return v.tzinfo is None and v.microsecond == 0
+        if type(v) is list:
+            return all(type(x) is str for x in v)
+        return plain_number(v)
+
+    def plain_card(c):
+        return c is None or (type(c) is tuple and len(c) == 2 and all(x is None or type(x) is int for x in c))
+
+    def plain_texts(obj, kind):
+        return all(getattr(obj, f, None) is None or type(getattr(obj, f)) is str for f in PLAIN_TEXT_FIELDS[kind])
+
+    secs, props = h.walk(doc)
+    if not plain_texts(doc, 'document') or not (doc._date is None or type(doc._date) is dt.date):
+        return False
+    for s in secs:
+        if not plain_texts(s, 'section') or not type(s.type) is str or not plain_card(s._sec_cardinality) \
+                or not plain_card(s._prop_cardinality):
+            return False
+    for p in props:
+        if not plain_texts(p, 'property') or not plain_card(p._val_cardinality):
+            return False
+        if not (p._uncertainty is None or plain_number(p._uncertainty)):
+            return False
+        if not all(plain_value(v) for v in p._values):
+            return False
+    return True
+
+
+def _native_via(objs, accepted):
+    """Entry point part of a failure class: the Properties (named after their entry point) the failure shows at."""
+    eps = sorted(set(o.rsplit('/', 1)[-1].split(':', 1)[-1] for o in objs if o not in ('/', '')))
+    if not eps:
+        return 'document'
+    if set(eps) >= set(accepted):
+        return 'any'
+    return '+'.join(eps)
+
+
+def run_native_values(tier, seed):
+    col = h.Collector(
+        'C02.native_values',
+        rule='values given as native Python objects that are legitimate but unusual: for every dtype (and for the '
+             'inferred dtype) time zone aware datetimes / times (utc, fixed offsets, a named zone with a DST rule), '
+             'instances of datetime / date / time / int / float / str subclasses, microseconds, fold, years 1 / 999 / '
+             '9999, a date where a datetime is expected and vice versa, bool / float / Decimal / Fraction for int and '
+             'float, ints beyond 64 bit and beyond the float range, -0.0, inf, nan, native tuples / lists for n-tuples '
+             '(%d objects) x %d value entry points (constructor list / scalar / among plain values, values= , value=, '
+             'append, extend, insert strict / lenient / into an empty Property, [i]=, extend by a Property, merge, clone, '
+             'create_property): one document per object with a Property per accepting entry point%s, and generated '
+             'documents with such Properties at random places; each x {JSON, YAML} x 3 writer x 3 reader entry points '
+             '(string and file) + DictWriter -> DictReader strict / lenient, compared on the stored fields and the '
+             'public attributes; + JSON == YAML exactly and == XML up to trimming; a writer may raise only for a '
+             'document holding something the format has no form for; distinct = (native object, structure, format, '
+             'writer, reader)'
+             % (sum(len(v) for v in NATIVE_POOL.values()), len(VALUE_ENTRY_POINTS),
+                '' if tier == 'quick' else ', one per (object, entry point), one per ordered pair of objects of a dtype '
+                                           'in one list'), exhaustive=False)
+    agg = c1.Agg(col)
+    work = c1.fresh_workdir('c02_native')
+    counters = {'inputs_refused_at_every_entry_point': [], 'writer_raised_for_unrepresentable_content': 0,
+                'documents': 0, 'documents_holding_only_format_types': 0,
+                'format_pairs_skipped_because_a_side_failed': 0, 'documents_split_by_entry_point': 0}
+    try:
+        for n, (label, feat, structure, doc, accepted, dtype, objs) in enumerate(native_documents(tier, seed)):
+            if doc is None:
+                counters['inputs_refused_at_every_entry_point'].append(feat)
+                continue
+            if not valid_document(doc):
+                continue
+            full = tier != 'quick' and structure == 'all-entry-points'
+            fails = _native_case(col, work, label, feat, structure, doc, accepted, counters, n, full)
+            split = structure == 'all-entry-points' and len(accepted) > 1 and \
+                any(f['cls'].get('via') == 'document' for f in fails)
+            for f in fails:
+                if not (split and f['cls'].get('via') == 'document'):
+                    agg.add(**f)
+            if split:
+                # the file as a whole failed: one document per entry point tells which entry points are concerned
+                # (and uncovers what the failure of the whole file hides)
+                counters['documents_split_by_entry_point'] += 1
+                per_class = {}
+                for ep in accepted:
+                    doc1, acc1 = native_doc(dtype, objs, [ep])
+                    if not acc1 or not valid_document(doc1):
+                        continue
+                    for f in _native_case(col, work, 'native[%s]%s' % (feat, ep), feat, ep, doc1, acc1, counters,
+                                          n, False):
+                        cls = dict(f['cls'])
+                        cls.pop('via', None)
+                        key = (f['check'], tuple(sorted(cls.items())))
+                        per_class.setdefault(key, {'f': f, 'cls': cls, 'eps': []})['eps'].append(ep)
+                for key in per_class:
+                    g = per_class[key]
+                    cls = dict(g['cls'])
+                    cls['via'] = 'any' if set(g['eps']) >= set(accepted) else '+'.join(sorted(set(g['eps'])))
+                    agg.add(check=g['f']['check'], cls=cls, witness=g['f']['witness'], detail=g['f']['detail'])
+                for f in fails:
+                    # a failure of the whole file that no single entry point reproduces stays as it is
+                    cls = dict(f['cls'])
+                    if cls.pop('via', None) == 'document' and (f['check'], tuple(sorted(cls.items()))) not in per_class:
+                        agg.add(**f)
+    finally:
+        c1.drop_workdir(work)
+    agg.flush()
+    res = col.result()
+    res.update(counters)
+    return res
+
+
+def _native_case(col, work, label, feat, structure, doc, accepted, counters, index, full):
+    """Evaluate one document; -> failures as keyword dicts for Agg.add. full: every writer x every reader, else
+    every writer and every reader once per format (rotating with index)."""
+    out = []
+    single = structure if structure in accepted else None      # document with one entry point only
+
+    def fail(check, cls, witness, detail):
+        if cls.get('via') == 'document' and single:
+            cls['via'] = single
+        out.append({'check': check, 'cls': cls, 'witness': witness, 'detail': detail})
+
+    readers = entry_points('base' if full else 'history', index)
+    before = h.snap(doc, parent=False)
+    public = public_view(doc)
+    plain = holds_only_format_types(doc)
+    counters['documents'] += 1
+    counters['documents_holding_only_format_types'] += 1 if plain else 0
+    found = {}
+    all_triples = []
+    parsed = {}
+    for fmt in FORMATS:
+        path = os.path.join(work, 'native.' + fmt.lower())
+        for wname in WRITERS:
+            w = write_doc(wname, fmt, doc, path)
+            if w[0] == 'exc':
+                col.case(cls_key=(feat, structure, fmt, wname, 'writer'), sample=None)
+                if plain:
+                    all_triples.append((fmt, wname, 'writer'))
+                    _collect(found, 'writer-accepts', c1.exc_feature(w[1]), '/', None,
+                             'writer raised %s: %s' % (type(w[1]).__name__, str(w[1])[:200]), (fmt, wname, 'writer'))
+                else:
+                    counters['writer_raised_for_unrepresentable_content'] += 1
+                continue
+            text, fpath = w[1]
+            if (fmt, text) not in parsed:
+                try:
+                    json.loads(text) if fmt == 'JSON' else yaml.safe_load(text)
+                    parsed[(fmt, text)] = None
+                except Exception as exc:        # noqa
+                    parsed[(fmt, text)] = exc
+            exc = parsed[(fmt, text)]
+            if exc is not None:
+                fail(check='C02.native_values/well-formed',
+                     cls={'clause': 'well-formed', 'native': feat, 'feature': type(exc).__name__, 'format': fmt,
+                          'via': 'document'},
+                     witness={'doc': label, 'writer': wname, 'entry_points': accepted},
+                     detail='written text is not plain %s: %s; contract: what is written is the document in the '
+                            '1.1 layout (or the writer raises)' % (fmt, str(exc)[:160]))
+            for rname in readers[wname]:
+                col.case(cls_key=(feat, structure, fmt, wname, rname),
+                         sample='%s | %s %s -> %s' % (label, fmt, wname, rname))
+                all_triples.append((fmt, wname, rname))
+                k, loaded = read_doc(rname, fmt, text, fpath)
+                _judge(found, doc, k, loaded, (fmt, wname, rname), public=public)
+    k, d = h.call(DictWriter().to_dict, doc)
+    if k == 'exc':
+        if plain:
+            all_triples.append(('dict', 'DictWriter.to_dict', 'writer'))
+            _collect(found, 'writer-accepts', c1.exc_feature(d), '/', None, 'to_dict raised %r' % (d,),
+                     ('dict', 'DictWriter.to_dict', 'writer'))
+        else:
+            counters['writer_raised_for_unrepresentable_content'] += 1
+    else:
+        for rname, lenient in (('DictReader(strict)', False), ('DictReader(lenient)', True)):
+            col.case(cls_key=(feat, structure, 'dict', 'DictWriter.to_dict', rname),
+                     sample='%s | to_dict -> %s' % (label, rname))
+            trip = ('dict', 'DictWriter.to_dict', rname)
+            all_triples.append(trip)
+            rd = DictReader(show_warnings=False, ignore_errors=lenient)
+            k2, loaded = h.call(rd.to_odml, {'Document': d, 'odml-version': c1.FORMAT_VERSION_11})
+            _judge(found, doc, k2, loaded, trip, public=public)
+    # one failure class per (clause, what differs, entry points of the file formats); the value entry points the
+    # failing Properties came through are part of the class
+    grouped = {}
+    for (check, feature, obj, field), info in found.items():
+        g = grouped.setdefault((check, feature, field, frozenset(info['pairs'])), {'objs': [], 'detail': info['detail']})
+        g['objs'].append(obj)
+    for (check, feature, field, pairs), g in grouped.items():
+        for fl, wl, rl in generalise3(pairs, all_triples):
+            fail(check='C02.native_values/' + check,
+                 cls={'clause': check, 'native': feat, 'feature': feature, 'via': _native_via(g['objs'], accepted),
+                      'format': fl, 'writer': wl, 'reader': rl},
+                 witness={'doc': label, 'objects': sorted(g['objs'])[:4], 'field': field,
+                          'entry_points': sorted(pairs)[:3]},
+                 detail=g['detail'] + '; contract: loaded document equals the saved one exactly (a document the '
+                                      'format cannot hold makes the writer raise)')
+    # JSON == YAML == XML (string entry points)
+    loaded = {}
+    for fmt in ('JSON', 'YAML', 'XML'):
+        k, text = h.call(ODMLWriter(fmt).to_string, doc)
+        if k == 'exc':
+            loaded[fmt] = ('write-exc', text)
+        elif fmt == 'XML':
+            loaded[fmt] = h.call(xp.XMLReader(show_warnings=False).from_string, text)
+        else:
+            loaded[fmt] = h.call(ODMLReader(fmt, show_warnings=False).from_string, text)
+    json_yaml_equal = False
+    for a, b, strip in (('JSON', 'YAML', False), ('JSON', 'XML', True), ('YAML', 'XML', True)):
+        if (a, b) == ('YAML', 'XML') and json_yaml_equal:
+            continue
+        col.case(cls_key=(feat, structure, a, b), sample='%s | %s vs %s' % (label, a, b))
+        (ka, da), (kb, db) = loaded[a], loaded[b]
+        if ka != 'ret' or kb != 'ret' or not isinstance(da, h.BaseDocument) or not isinstance(db, h.BaseDocument):
+            counters['format_pairs_skipped_because_a_side_failed'] += 1
+            continue
+        diffs = c1.doc_differences(da, db, strip=strip, label_from=doc)
+        if (a, b) == ('JSON', 'YAML') and not diffs:
+            json_yaml_equal = True
+        by = {}
+        for dd in diffs:
+            by.setdefault((dd['clause'], dd['feature'], dd.get('field')), []).append(dd)
+        for (clause, feature, field), dds in by.items():
+            fail(check='C02.native_values/%s==%s/%s' % (a.lower(), b.lower(), clause),
+                 cls={'clause': clause, 'native': feat, 'feature': feature, 'formats': '%s/%s' % (a, b),
+                      'via': _native_via([x['object'] for x in dds], accepted)},
+                 witness={'doc': label, 'objects': sorted(x['object'] for x in dds)[:4], 'field': field},
+                 detail='%s: %s, %s: %s' % (a, dds[0]['detail'].split(', loaded ')[0].replace('original ', ''), b,
+                                            dds[0]['detail'].split(', loaded ')[-1]) +
+                        '; contract: both formats load to the same document' +
+                        (' up to trimming of text' if strip else ''))
+    if h.snap(doc, parent=False) != before or public_view(doc) != public:
+        fail(check='C02.native_values/writer-leaves-document-unchanged',
+             cls={'clause': 'writer-leaves-document-unchanged', 'native': feat, 'feature': 'any'},
+             witness={'doc': label}, detail='saving/loading changed the original document: %s'
+             % h.diff(before, h.snap(doc, parent=False)))
+    return out
